@@ -243,13 +243,16 @@ fn nodes(v: &Value, ptr: String, out: &mut Vec<(String, String)>) {
     }
 }
 
-pub const FAULTS: [&str; 34] = [
+pub const FAULTS: [&str; 36] = [
     "two-variants", "no-variant", "unknown-variant", "node-string", "node-array", "node-null", "terminal-string", "terminal-null", "terminal-bool",
     "terminal-object", "missing-outcomes", "missing-actions", "missing-infoset", "missing-player-one", "missing-prob", "missing-state",
     "infoset-twice", "actions-twice", "outcomes-twice", "prob-twice", "player-one-number", "player-one-string", "infoset-number", "infoset-null",
     "chance-infoset-number", "actions-array", "outcomes-array", "prob-string", "prob-null", "malformed-decoy",
     // well-formed JSON-DSL, outside the library contract
     "prob-zero", "prob-negative", "no-actions", "no-outcomes",
+    // one node of an infoset lists one action more / one action fewer than the others (a fault only when the infoset has
+    // another node: the specification decides)
+    "extra-action", "drop-last-action",
 ];
 
 fn members_mut<'a>(doc: &'a mut Value, node: &str) -> Option<&'a mut Vec<Value>> {
@@ -375,6 +378,25 @@ pub fn apply_fault(doc: &Value, fault: &str, rng: &mut Rng) -> Option<Value> {
                         _ => num(-1, 1),
                     };
                 }
+            }
+        }
+        "extra-action" | "drop-last-action" => {
+            let ms = members_mut(&mut d, &ptr)?;
+            let i = member_index(ms, "actions")?;
+            let acts = ms[i]["v"]["f"].as_array_mut()?;
+            if fault == "extra-action" {
+                // "~" sorts after every other name of the alphabet: the longer list extends the shorter one
+                if acts.iter().any(|m| m["k"] == "~") {
+                    return None;
+                }
+                acts.push(member("~", obj(vec![("terminal".into(), num(0, 1))])));
+            } else {
+                if acts.len() < 3 {
+                    return None;
+                }
+                // drop the action whose name sorts last
+                let last = acts.iter().enumerate().max_by_key(|(_, m)| NAMES.iter().position(|n| Some(*n) == m["k"].as_str()).unwrap_or(0)).map(|(j, _)| j)?;
+                acts.remove(last);
             }
         }
         "malformed-decoy" => {
